@@ -5,9 +5,10 @@ From FlacMeta Require Import Bytes Bytes_proofs Blocks BlockList Blocks_proofs B
 From FlacUpdIo Require GenUpd Update Update_proofs Update_cond.
 From FlacCodec Require Ast Stream Spec Wf.
 From FlacWriters Require Import Params Params_proofs Finalize Writers Encoder_proofs C09_proofs Bytes_proofs Writers_proofs Cross_proofs.
-From FlacE2E Require Bridge E2E Success.
+From FlacReaders Require Readers Spec Seek.
+From FlacE2E Require Bridge E2E Success ReadBridge ReadersE2E.
 From FlacE2EMeta Require Import MetaBridge FinishedBlocks.
-From FlacE2EUpd Require Import RealCodec CodecView UpdateE2E WrittenEdited WrittenEditedFronts.
+From FlacE2EUpd Require Import RealCodec CodecView UpdateE2E WrittenEdited WrittenEditedFronts WrittenEditedRead.
 Open Scope N_scope.
 
 Theorem C10_written_then_edited_lossless : forall (u : list N -> bool),
@@ -94,3 +95,36 @@ Theorem C10_channel_written_then_edited_lossless : forall (u : list N -> bool),
 Proof. exact channel_written_then_edited. Qed.
 
 Print Assumptions C10_channel_written_then_edited_lossless.
+
+(* write, edit any number of times, read: the edited file decodes to blocks over which the FlacSampleReader model, under
+   every seek-free history of read / fill_buf / consume / next calls, delivers exactly the whole PCM frames written *)
+Theorem C10_written_edited_then_read : forall (u : list N -> bool),
+  (forall s, Forall (fun b => b < 128) s -> u s = true) ->
+  forall o L md5, (forall l, length (md5 l) = 16%nat) -> (forall l, Forall (fun b => b < 256) (md5 l)) ->
+  forall p rate bps ch, rate < 2 ^ 20 -> 1 <= bps -> bps <= 32 -> 1 <= ch -> ch <= 8 ->
+  forall wo total w chunks e rp,
+  options_wf wo -> Forall plain (o_metadata wo) -> seektables (o_metadata wo) = 0%nat ->
+  sample_new p [] wo rate bps ch total = Ok w ->
+  forallb (FlacCodec.Wf.fits bps) (concat chunks) = true ->
+  let W := N.of_nat (length (concat chunks)) / ch in
+  let written := firstn (N.to_nat ch * (length (concat chunks) / N.to_nat ch)) (concat chunks) in
+  1 <= W -> N.of_nat (length (concat chunks)) < 2 ^ 36 ->
+  match total with Some T => T = ch * W | None => True end ->
+  exists f blocks,
+    sample_run (FlacE2E.E2E.encB o L rate bps) md5 p w chunks = Ok f /\
+    (* the edited file still decodes to these blocks ... *)
+    (forall edits fn rs,
+      Forall (typed_edit u) edits -> Forall (U.keeps_streaminfo FlacMeta.Blocks.block) edits ->
+      U.run_edits FlacMeta.Blocks.block psize_r ser_r uclass_r (read_blocks_r u) edits (f_stream f) = (fn, rs) ->
+      FlacCodec.Stream.dec_stream fn =
+        Some (FlacE2E.Bridge.conv_si (f_si f), map FlacCodec.Stream.interleave_frame blocks, FlacCodec.Stream.EndEof)) /\
+    (* ... and the reader model over them delivers exactly what was written *)
+    let F := FlacE2E.ReadBridge.file_of_blocks blocks ch bps (Some (FlacCodec.Enc_proofs.blocks_samples blocks)) e rp in
+    RS.valid_file F /\ RS.pcm F = written /\
+    forall ops, RS.no_sseek ops -> Forall RS.sop_ok (snd (FlacReaders.Seek.sample_run F ops)) ->
+      let atr := map (RS.abs_s F) (snd (FlacReaders.Seek.sample_run F ops)) in
+      Forall (RS.cur_ok written) atr /\ RS.chained 0 atr (RS.spos F (fst (FlacReaders.Seek.sample_run F ops))) /\
+      RS.exactly_once written atr.
+Proof. exact written_edited_then_read. Qed.
+
+Print Assumptions C10_written_edited_then_read.
